@@ -69,6 +69,7 @@ def concretize(symbols, rnd, e2e=False):
 FACETS = ["lessThanProperty", "lessThanOrEqualsToProperty", "equalsToProperty", "disjointWithProperty"]
 
 
+WHERE = ["", "andFirst", "andSecond", "orFirst", "orSecond", "not", "nested", "atLeast", "then"]
 OTHER_SPACES = ["\u00a0", "\u2003", "\u3000", "\u2028", "\ufeff", "\x0b", "\x0c"]
 
 
@@ -245,6 +246,8 @@ def run(tier):
             text, offs = concretize(c["s"], rnd, e2e=e2e)
             cid = "%s/%d" % (sname, n)
             row = {"id": cid, "s": text, "e2e": e2e}
+            if e2e:
+                row["where"] = WHERE[(n // (25 if quick else 50)) % len(WHERE)]
             if e2e and (n // (25 if quick else 50)) % 2 == 1:
                 # every second end-to-end case: the string is the argument of a property-comparison facet
                 row["arg"] = FACETS[(n // 50) % len(FACETS)]
@@ -289,7 +292,7 @@ def run(tier):
     for n, c in enumerate(sent[:120] + near[:(300 if quick else 3000)]):
         text, offs = fixed_concretize(c["s"], OTHER_SPACES[n % len(OTHER_SPACES)])
         cid = "hist-e2e/%d" % n
-        row = {"id": cid, "s": text, "e2e": True}
+        row = {"id": cid, "s": text, "e2e": True, "where": WHERE[n % len(WHERE)]}
         if n % 3 == 2:
             row["arg"] = FACETS[n % len(FACETS)]
         e2e_hist.append(row)
